@@ -117,6 +117,7 @@ theorem unit_fromExprD_err : (e : Expr) →
       obtain ⟨e', he⟩ := unit_fromExprD_err g
       simp only [Hooks.fromExprD, he]; exact ⟨_, rfl⟩
   | .path _ _ => ⟨_, rfl⟩
+  | .qpath _ _ _ => ⟨_, rfl⟩
   | .array _ _ _ => ⟨_, rfl⟩
   | .other _ _ _ => ⟨_, rfl⟩
 
